@@ -56,6 +56,9 @@ def register(reg):
     col_inv = lambda c, o: SV(TBool, c.attr(o, "columns").z == V.rcols(V.rows(o.z)))  # noqa: E731
     reg.object_invariant("UnaryOperationRelation", "columns-truthful", col_inv)
     reg.object_invariant("BinaryOperationRelation", "columns-truthful", col_inv)
+    # leaves: the property's hypothesis; markers: consequence of the (proved) MarkerRelation.columns contract
+    reg.object_invariant("LeafRelation", "declared-columns-truthful", col_inv, assumed_only=True)
+    reg.object_invariant("MarkerRelation", "columns-truthful", col_inv, assumed_only=True)
 
     # ---------------------------------------------------------------- operations
     k = reg.contract("_unary_operation:UnaryOperation.applied_min_rows", virtual=True, pure=True, properties=P)
